@@ -6,7 +6,7 @@ sys.path.insert(0, os.path.dirname(os.path.abspath(__file__)))
 import vlib
 
 JOB = {"C04", "C06", "C07", "C09", "C10"}
-WORK = {"C01", "C02", "C15"}
+WORK = {"C01", "C02", "C15", "C08"}
 
 
 def main():
@@ -20,6 +20,9 @@ def main():
         if prop in JOB:
             import jobcheck
             violations = jobcheck.run(prop, a.tier, a.replay)
+        elif prop == "C13":
+            import fscheck
+            violations = fscheck.run(prop, a.tier, a.replay)
         elif prop in WORK:
             import workcheck
             violations = workcheck.run(prop, a.tier, a.replay)
